@@ -236,6 +236,79 @@ def file_cycle(world, start):
     return go(start)
 
 
+def unvisited_imports(world, origin):
+    """imports that are reachable from the origin's imports but lie below a units that is not imported, where the
+    importer does not look (known finding C07-imports-below-local-units): the traversal of fetchUnits / fetchComponent is
+    mirrored (an import is visited when the importer fetches it) and compared with plain reachability"""
+    visited = set()
+    def model_of(url):
+        g = world.get(url)
+        return g if g is not None and g['kind'] == 'model' else None
+    def visit_u(f, u, depth=0):
+        if not u['imp'] or (f, 'u', u['name']) in visited or depth > 50:
+            return
+        visited.add((f, 'u', u['name']))
+        g = model_of(u['imp'][0])
+        if g is None:
+            return
+        su = find_units(g, u['imp'][1])
+        if su is None:
+            return
+        visit_u(u['imp'][0], su, depth + 1)
+        for k in su['kids']:
+            ku = find_units(g, k)
+            if ku is not None and ku['imp']:
+                visit_u(u['imp'][0], ku, depth + 1)
+    def sub_units(c, root=True):
+        out = list(c['units']) if (root or not c['imp']) else []
+        if root or not c['imp']:
+            for k in c['kids']:
+                out += sub_units(k, False)
+        return out
+    def visit_c(f, c, depth=0):
+        if depth > 50 or not requires_imports(c):
+            return
+        if not c['imp']:
+            for k in c['kids']:
+                visit_c(f, k, depth + 1)
+            return
+        if (f, 'c', c['name']) in visited:
+            return
+        visited.add((f, 'c', c['name']))
+        g = model_of(c['imp'][0])
+        if g is None:
+            return
+        sc = find_comp(g, c['imp'][1])
+        if sc is None:
+            return
+        visit_c(c['imp'][0], sc, depth + 1)
+        for k in sc['kids']:
+            visit_c(c['imp'][0], k, depth + 1)
+        for un in sub_units(sc):
+            uu = find_units(g, un)
+            if uu is not None:
+                visit_u(c['imp'][0], uu, depth + 1)
+    f0 = world[origin]
+    for u in f0['units']:
+        visit_u(origin, u)
+    for c in all_comps(f0):
+        if c['imp']:
+            visit_c(origin, c)
+    # plain reachability
+    roots = [(origin, 'u', u['name']) for u in f0['units'] if u['imp']] + [(origin, 'c', c['name']) for c in all_comps(f0) if c['imp']]
+    seen, stack = set(), list(roots)
+    while stack:
+        k = stack.pop()
+        if k in seen:
+            continue
+        seen.add(k)
+        e = entity(world, k)
+        es = edges(world, k[0], k[1], e, True)
+        for _, t in (es or []):
+            stack.append(t)
+    return sorted(k for k in seen if entity(world, k)['imp'] and k not in visited)
+
+
 # ---------------------------------------------------------------------------------------------
 # generation
 
